@@ -123,7 +123,7 @@ def meth_programs(prefix, names, vals, modes, kind="S", args=(), kw=None, cfg=No
         for a in vals:
             for argv in (itertools.product(*args) if args else [()]):
                 for mode in modes:
-                    B = Builder("%s/%s/%s/%d/%s/%s" % (prefix, nm, kind, a, ",".join(str(x[1]) for x in argv), mode), mode, cfg,
+                    B = Builder("%s/%s/%s/%d/%s/%s" % (prefix, nm, kind, a, ",".join(x[0] + str(x[1]) for x in argv), mode), mode, cfg,
                                 {"op": nm, "kinds": kind, "a": a, "args": [x[1] for x in argv]})
                     ra = B.opnd((kind, a))
                     st = {"op": "meth", "name": nm, "a": ra, "args": [B.opnd(x) for x in argv], "tag": "main"}
